@@ -449,7 +449,9 @@ class REPEX_state:
 
     def initiate(self):
         """Initiate loop."""
-        if not self.cstep < self.tsteps:
+        # do not start more workers than there are steps left: every job
+        # that is started has to be waited for before the run can end.
+        if not self.cstep + (self.workers - self.toinitiate) < self.tsteps:
             return False
 
         self.cworker = self.workers - self.toinitiate
